@@ -424,11 +424,16 @@ fn add_node<'a, const K: usize>(
     work: &mut Vec<Work<'a>>,
 ) {
     match s {
+        // the three public insertion entry points are used in turn
         Spec::T(a) => {
-            tree.add_child_node(parent, label, a.to_lib()).unwrap();
+            if (parent + label) % 2 == 0 {
+                tree.add_terminal(parent, label, a.to_lib()).unwrap();
+            } else {
+                tree.add_child_node(parent, label, a.to_lib()).unwrap();
+            }
         }
         Spec::D(a, kids) => {
-            let idx = tree.add_child_node(parent, label, a.to_lib()).unwrap();
+            let idx = if (parent + label) % 2 == 0 { tree.add_decision(parent, label, a.to_lib()).unwrap() } else { tree.add_child_node(parent, label, a.to_lib()).unwrap() };
             for (l, c) in kids.iter().enumerate() {
                 if let Some(c) = c {
                     work.push(Work::Add(idx, l, c));
